@@ -432,6 +432,7 @@ Proof.
   - intros sd k Hk Hlt Hg. rewrite Hp in Hlt. rewrite Hst, Hents. apply (i_cove _ _ _ I sd k Hk Hlt Hg).
   - intros sd k cs Hg. rewrite Hobj. apply (i_ghost _ _ _ I sd k cs Hg).
   - intros e sd Hl. rewrite Hst, Hents in Hl. change (getx w' e sd) with (getx w e sd). apply (i_xlen _ _ _ I e sd Hl).
+  - intros e en sd He Hn. rewrite Hst, Hents in Hn. unfold Seen. change (getx w' e sd) with (getx w e sd). apply (i_seen _ _ _ I e en sd He Hn).
 Qed.
 
 Lemma Inv_st g w s' :
@@ -467,12 +468,12 @@ Proof.
   - destruct (get_latest w e false [false; true]) as [w1|c] eqn:Eg; [|discriminate]. cbn [rbind] in H. injection H as <- <-.
     assert (Hnd: forall en0, nth_error (ents (w_st w)) e = Some en0 -> is_discarded (e_ign en0) = false).
     { intros en0 H0. assert (en0 = en) by congruence. subst en0. rewrite Hi. reflexivity. }
-    destruct (get_latest_both (real_evl w) g w e w1 I He Hnd Eg) as (I1 & R1 & R2 & Hp & Hgx & (en0 & en1 & Hn0 & Hn1 & Hi1 & Hm1) & Hnow).
+    destruct (get_latest_both (real_evl w) g w e w1 I He Hnd Eg) as (I1 & R1 & R2 & Hp & Hgx & (en0 & en1 & Hn0 & Hn1 & Hi1 & Hm1) & Hnow & Hshp).
     destruct (get_latest_pres (real_evl w) g w e false _ w1 I He Eg) as (_ & _ & _ & _ & Htf & _).
     assert (en0 = en) by congruence. subst en0.
     split; [exact Hgx|]. split; [intros sd; rewrite Htf; apply Htmp|]. split; [exact Hp|].
     exists en1. split; [|split; [congruence|lia]].
-    constructor; [|exact He|exact Hn1|].
+    constructor; [|exact He|exact Hn1| |intros sd0; apply (Hshp en1 sd0 Hn1)].
     + unfold Inv. apply (InvP_ext (real_evl w)); [intros sd; unfold real_evl; rewrite Hp; reflexivity|exact I1].
     + intros sd0 k ob Ho Hob.
       assert (Hpd: pd (real_evl w1) sd0 k = pd (real_evl w) sd0 k) by (unfold pd, real_evl; rewrite Hp; reflexivity).
@@ -482,12 +483,14 @@ Proof.
     destruct (AlgoModel.finished w e false) as [wa|c] eqn:Efa; [|discriminate]. cbn [rbind] in H.
     destruct (AlgoModel.finished wa e true) as [wb|c] eqn:Efb; [|discriminate]. cbn [rbind] in H. injection H as <- <-.
     assert (Hd: is_discarded (e_ign en) = true) by (rewrite Hi; reflexivity).
-    destruct (finished_pres0 g w e en false wa I He Hn) with (3 := Efa) as (Ia & Hgxa & Hta & Hpa & ena & Hna & Sa).
+    destruct (finished_pres0 g w e en false wa I He Hn) with (4 := Efa) as (Ia & Hgxa & Hta & Hpa & ena & Hna & Sa).
+    { intros X. rewrite Hd in X. discriminate. }
     { intros X. rewrite Hd in X. discriminate. }
     { intros k ob cs _ _ _ _ X. rewrite Hd in X. discriminate. }
     assert (Hda: is_discarded (e_ign ena) = true).
     { destruct Sa as (_ & _ & S3). unfold clr in S3. rewrite ign_ss in S3. rewrite <- S3. exact Hd. }
-    destruct (finished_pres0 g wa e ena true wb Ia He Hna) with (3 := Efb) as (Ib & Hgxb & Htb & Hpb & enb & Hnb & Sb).
+    destruct (finished_pres0 g wa e ena true wb Ia He Hna) with (4 := Efb) as (Ib & Hgxb & Htb & Hpb & enb & Hnb & Sb).
+    { intros X. rewrite Hda in X. discriminate. }
     { intros X. rewrite Hda in X. discriminate. }
     { intros k ob cs _ _ _ _ X. rewrite Hda in X. discriminate. }
     split; [intros x sd0 Hne; rewrite Hgxb by exact Hne; apply Hgxa; exact Hne|]. split; [exact Htb|].
